@@ -133,15 +133,15 @@ MC = {
     "margin": dict(
         cfg=base_cfg(init={"BTC": 0, "USD": 4}, lendMode="margin", reqD=2,
                      cond={"BTC": margin_cond("USD", 1, 2, 2, 1, 1), "USD": margin_cond("USD", 1, 2, 2, 1, 1)}),
-        req=reqset(["market", "limit"], [2, 4], [2], [2], ab=[False, True], ar=[False, True]), bars=barset([1, 2, 3], [4]),
+        req=reqset(["market", "limit"], [2], [2], [2], ab=[False, True], ar=[False, True]), bars=barset([1, 3], [4]),
         loans="{[sym |-> \"USD\", amount |-> 4], [sym |-> \"BTC\", amount |-> 2], [sym |-> \"USD\", amount |-> 40]}",
-        bounds=dict(MaxOrders=2, MaxLoans=2, MaxBars=3, MaxCalls=3), times=[1, 2]),
+        bounds=dict(MaxOrders=2, MaxLoans=2, MaxBars=3, MaxCalls=3), times=[2]),
     "margin_zero": dict(
         cfg=base_cfg(init={"BTC": 0, "USD": 0}, lendMode="margin", reqD=2,
                      cond={"BTC": margin_cond("BTC", 1, 2, 1, 0, 1), "USD": margin_cond("USD", 1, 2, 1, 0, 2)}),
-        req=reqset(["market", "limit"], [1], [2], [2], ab=[True], ar=[False, True]), bars=barset([1, 2], [4]),
+        req=reqset(["market"], [1], [2], [2], ab=[True], ar=[False, True]), bars=barset([1, 2], [4]),
         loans="{[sym |-> \"USD\", amount |-> 3], [sym |-> \"BTC\", amount |-> 1]}",
-        bounds=dict(MaxOrders=2, MaxLoans=3, MaxBars=3, MaxCalls=4), times=[1]),
+        bounds=dict(MaxOrders=2, MaxLoans=3, MaxBars=2, MaxCalls=4), times=[1]),
     # two pairs sharing the quote symbol: orders competing for the same funds inside one timestamp
     "twopairs": dict(
         cfg=base_cfg(syms=["BTC", "ETH", "USD"], scale={"BTC": 1, "ETH": 1, "USD": 1},
@@ -308,12 +308,14 @@ def random_cfg(rng: random.Random, profile: str) -> dict:
         cfg["vlN"], cfg["vlD"] = rng.choice([(1, 4), (1, 10), (1, 2), (1, 3), (1, 1), (0, 1)])
         cfg["vs"] = rng.choice([1, 1, 10])
     if lend == "margin":
-        cfg["reqD"] = 10
+        # keep value computations (units * price * scale ratio * requirement) inside TLC's 32-bit integers
+        cfg["pm"] = 1
+        cfg["reqD"] = 4
         for s in syms:
             if rng.random() < 0.85:
                 cfg["cond"][s] = margin_cond(rng.choice([s, "USD"]), *rng.choice([(0, 1), (1, 100), (1, 10), (7, 100)]),
                                              period=rng.choice([1, 2, 4, 8]),
-                                             minInt=rng.choice([0, 0, 1, 5]), reqN=rng.choice([1, 5, 10, 20]))
+                                             minInt=rng.choice([0, 0, 1, 5]), reqN=rng.choice([1, 2, 4, 8]))
     return cfg
 
 
@@ -435,7 +437,7 @@ def sig_of(tr: dict) -> tuple:
 
 def check(rep: Report, tier: str, seed: int, prop: str = None):
     prop = prop or rep.prop
-    rng = random.Random((seed << 8) ^ hash(prop) % 9973)
+    rng = random.Random(seed * 1000003 + sum(map(ord, prop)))
     quick = tier == "quick"
     invs, props = MC_PREDICATES[prop]
     names = MC_FOR[prop][0] + ([] if quick else MC_FOR[prop][1])
